@@ -185,15 +185,19 @@ inline std::vector<Segment> segments(const Block &B, const Line &ln,
 
 // ------------------------------------------------------------------ near cells
 // every cell whose box, inflated by E[i] per dimension, is touched by the line
-// at some parameter t >= 0, with the parameter interval inside the inflated
-// and inside the deflated box
+// at some parameter t >= -tback, with the parameter interval inside the
+// inflated box (from -tback on) and inside the deflated box (from 0 on).
+// tback > 0 covers a traversal that assigns a start point lying within
+// rounding of a wall to the cell on the other side and therefore begins with a
+// (tiny in space, E/|d| in parameter) step backwards.
 struct Near {
   int idx[3];
   int cell;
   Interval infl, defl;
 };
 inline std::vector<Near> near_cells(const Block &B, const Line &ln,
-                                    const int stat[3], const LD E[3]) {
+                                    const int stat[3], const LD E[3],
+                                    LD tback = 0.L) {
   std::vector<Interval> I[3], D[3];
   for (int i = 0; i < 3; ++i) {
     I[i].resize(B.n[i]);
@@ -209,9 +213,10 @@ inline std::vector<Near> near_cells(const Block &B, const Line &ln,
     }
   }
   const Interval pos{0.L, INF};
+  const Interval posb{-tback, INF};
   std::vector<Near> out;
   for (int ix = 0; ix < B.n[0]; ++ix) {
-    const Interval a = isect(I[0][ix], pos);
+    const Interval a = isect(I[0][ix], posb);
     if (a.empty())
       continue;
     for (int iy = 0; iy < B.n[1]; ++iy) {
@@ -273,6 +278,8 @@ struct TauFn {
     std::sort(ev.begin(), ev.end());
     std::vector<int> active;
     LD tau = 0.L, tp = 0.L;
+    if (!ev.empty() && ev.front().first < 0.L)
+      tp = ev.front().first; // intervals may begin at a negative parameter
     for (auto &e : ev) {
       const LD dt = e.first - tp;
       if (dt > 0.L && !active.empty()) {
